@@ -1,7 +1,9 @@
 package main
 
 import (
+	"bytes"
 	"encoding/json"
+	"os/exec"
 	"fmt"
 	"os"
 	"path/filepath"
@@ -451,7 +453,11 @@ func cmdCheck(args []string) {
 	}
 
 	// replay files + VIOLATION lines
-	os.MkdirAll(filepath.Join(verifDir(), "replays"), 0o755)
+	replayDir := filepath.Join(verifDir(), "replays")
+	if d := os.Getenv("VQ_REPLAY_DIR"); d != "" {
+		replayDir = d
+	}
+	os.MkdirAll(replayDir, 0o755)
 	for i := range violations {
 		v := &violations[i]
 		ns := byName[v.Obligation]
@@ -472,8 +478,8 @@ func cmdCheck(args []string) {
 			}
 		}
 		rp.NoFailingInput = v.NoInput
-		file := filepath.Join(verifDir(), "replays", sanitizeFile(v.Obligation)+".json")
-		data, _ := json.MarshalIndent(rp, "", " ")
+		file := filepath.Join(replayDir, sanitizeFile(v.Obligation)+".json")
+		data := marshalPlain(rp)
 		os.WriteFile(file, data, 0o644)
 		v.Replay = file
 	}
@@ -578,6 +584,10 @@ func cmdCheck(args []string) {
 	for k, v := range env.cs.Source {
 		srcs[k] = v
 	}
+	var selftest map[string]interface{}
+	if tier == "thorough" && os.Getenv("VQ_REPO") == "" {
+		selftest = selfTest(prop)
+	}
 	ev := map[string]interface{}{
 		"property_id": prop, "tier": tier, "seed": seed, "level": "proof", "wall_s": round1(time.Since(t0).Seconds()), "violations": len(violations),
 		"coverage": map[string]interface{}{
@@ -598,6 +608,7 @@ func cmdCheck(args []string) {
 			"known_finding_obligations": kfObls,
 			"unbound_contracts":        unboundList,
 			"bounded_standins":         []string{},
+			"selftest":                 selftest,
 			"b1_not_covered":           sweptUncovered,
 			"contract_sources":         srcs,
 			"lemmas":                   len(lemmaObls),
@@ -609,7 +620,7 @@ func cmdCheck(args []string) {
 		evDir = d // seed runs: keep the committed evidence (from the unchanged tree) intact
 	}
 	os.MkdirAll(evDir, 0o755)
-	data, _ := json.MarshalIndent(ev, "", " ")
+	data := marshalPlain(ev)
 	os.WriteFile(filepath.Join(evDir, prop+".json"), data, 0o644)
 
 	if writeLock {
@@ -628,7 +639,7 @@ func cmdCheck(args []string) {
 		}
 		lock[prop] = pinned
 		order = pinned
-		ld, _ := json.MarshalIndent(lock, "", " ")
+		ld := marshalPlain(lock)
 		os.WriteFile(filepath.Join(verifDir(), "obligations.lock"), ld, 0o644)
 	}
 
@@ -647,6 +658,69 @@ func cmdCheck(args []string) {
 		}
 		os.Exit(1)
 	}
+}
+
+// marshalPlain: indented JSON without HTML escaping (contract text contains <, >, &).
+func marshalPlain(v interface{}) []byte {
+	var b bytes.Buffer
+	enc := json.NewEncoder(&b)
+	enc.SetEscapeHTML(false)
+	enc.SetIndent("", " ")
+	enc.Encode(v)
+	return b.Bytes()
+}
+
+// selfTest (thorough tier): every stored seeded change of this property (/verif/seeded/<prop>-k, not superseded) is applied to a scratch
+// copy of the CURRENT tree and the quick check is run on it; the check is expected to alarm. The outcome is reported in the evidence
+// (coverage.selftest); it never changes the exit status of the check (a seed that no longer applies to the current tree is skipped).
+func selfTest(prop string) map[string]interface{} {
+	dir := filepath.Join(verifDir(), "seeded")
+	ents, _ := os.ReadDir(dir)
+	exe, _ := os.Executable()
+	repo := "/repo"
+	if d := os.Getenv("VQ_REPO"); d != "" {
+		repo = d
+	}
+	applied, detected := 0, 0
+	var missed, skipped []string
+	for _, e := range ents {
+		if !e.IsDir() || !strings.HasPrefix(e.Name(), prop+"-") {
+			continue
+		}
+		meta, _ := os.ReadFile(filepath.Join(dir, e.Name(), "meta.json"))
+		if strings.Contains(string(meta), "\"status\": \"superseded") {
+			continue
+		}
+		scratch, _ := os.MkdirTemp("", "vq-selftest-")
+		cp := exec.Command("cp", "-r", repo+"/.", scratch)
+		if out, err := cp.CombinedOutput(); err != nil {
+			skipped = append(skipped, e.Name()+": copy failed: "+firstLines(string(out), 1))
+			os.RemoveAll(scratch)
+			continue
+		}
+		os.RemoveAll(filepath.Join(scratch, ".git"))
+		ap := exec.Command("patch", "-p1", "-s", "-f", "-i", filepath.Join(dir, e.Name(), "patch.diff"))
+		ap.Dir = scratch
+		if out, err := ap.CombinedOutput(); err != nil {
+			skipped = append(skipped, e.Name()+": patch does not apply to the current tree: "+firstLines(string(out), 1))
+			os.RemoveAll(scratch)
+			continue
+		}
+		applied++
+		evd, _ := os.MkdirTemp("", "vq-selftest-ev-")
+		c := exec.Command(exe, "check", prop, "--tier", "quick")
+		c.Env = append(os.Environ(), "VQ_REPO="+scratch, "VQ_EVIDENCE_DIR="+evd, "VQ_REPLAY_DIR="+evd)
+		out, _ := c.CombinedOutput()
+		if strings.Contains(string(out), "VIOLATION property="+prop) {
+			detected++
+		} else {
+			missed = append(missed, e.Name())
+		}
+		os.RemoveAll(scratch)
+		os.RemoveAll(evd)
+	}
+	return map[string]interface{}{"seeds_applied": applied, "seeds_detected": detected, "seeds_missed": missed, "seeds_skipped": skipped,
+		"note": "must-fail corpus: each stored seeded change applied to a scratch copy of the current tree, quick check expected to alarm"}
 }
 
 func maxInt(a, b int) int {
